@@ -170,8 +170,12 @@ where
         self.validity_checker = Some(validity_checker);
         self.tree.clear();
 
-        // Initialise the tree with the start state.
-        let start_state = self.problem_def.as_ref().unwrap().start_states[0].clone();
+        // Initialise the tree with the start state. Without one the tree stays empty and solve()
+        // reports an invalid start.
+        let Some(start_state) = self.problem_def.as_ref().unwrap().start_states.first().cloned()
+        else {
+            return;
+        };
         let start_node = Node {
             state: start_state,
             parent_index: None,
@@ -192,7 +196,7 @@ where
             .validity_checker
             .as_ref()
             .ok_or(PlanningError::PlannerUninitialised)?;
-        if !vc.is_valid(&pd.start_states[0]) {
+        if !pd.start_states.first().is_some_and(|start| vc.is_valid(start)) {
             return Err(PlanningError::InvalidStartState);
         }
 
